@@ -35,6 +35,9 @@ pub fn scenarios(prop: &str, tier: &str) -> Vec<Scenario> {
         return scenarios_c04(tier);
     }
     let mut out = Vec::new();
+    if prop == "C01" {
+        out.extend(crate::catalog::zero_weight_scenarios("C01", &Pk::ALL));
+    }
     if prop == "C05" {
         // the bounded spaces of C04 (angular intervals wider than pi, cones, compounds): whatever a
         // planner does with a steered state that leaves the bounds must not lengthen the edge
@@ -369,6 +372,25 @@ fn scenarios_c04(tier: &str) -> Vec<Scenario> {
                 }
             }
         }
+    }
+    // --- the same bounded SO(2) / SO(3) scenarios at the coarsest resolution (fraction 1): a motion shorter
+    // than one check step is validated at its end state only, so a guard that lives inside the motion check
+    // has to cover that shortcut too
+    {
+        let coarse: Vec<Scenario> = out
+            .iter()
+            .filter(|s| (s.kit == "SO2" || s.kit == "SO3") && s.tag.contains("x0.3"))
+            .map(|s| {
+                let mut c = s.clone();
+                match &mut c.spec {
+                    Spec::So2 { frac, .. } | Spec::So3 { frac, .. } => *frac = Some(1.0),
+                    _ => {}
+                }
+                c.tag = format!("{}/coarse", s.tag);
+                c
+            })
+            .collect();
+        out.extend(coarse);
     }
     // --- compounds / SE(2) with a bounded angular interval, SE(3) box
     {
